@@ -610,7 +610,8 @@ Definition qnames_to_try (r : rcfg) (qname : name) (search : option bool) : res 
 (* one resolve() call *)
 Record request := {
   rq_qname : name; rq_rdtype : Z; rq_rdclass : Z; rq_tcp : bool; rq_raise : bool;
-  rq_lifetime : option Z; rq_search : option bool; rq_advance : Z
+  rq_lifetime : option Z; rq_search : option bool; rq_advance : Z;
+  rq_preload : bool    (* not a resolve() call: the user stores an Answer with resolver.cache.put *)
 }.
 
 Definition mk_cfg (r : rcfg) (rq : request) (qs : list name) : cfg :=
@@ -757,12 +758,12 @@ Definition rcfg_of (o : obs) : option rcfg :=
 
 Definition request_of (o : obs) : option request :=
   match o with
-  | L [qn; I ty; I cls; I tcp; I raise; lt; srch; I adv] =>
+  | L [qn; I ty; I cls; I tcp; I raise; lt; srch; I adv; I pre] =>
       match name_of qn, optZ_of lt, optZ_of srch with
       | Some qn, Some lt, Some srch =>
           Some {| rq_qname := qn; rq_rdtype := ty; rq_rdclass := cls; rq_tcp := bool_of tcp;
                   rq_raise := bool_of raise; rq_lifetime := lt;
-                  rq_search := option_map bool_of srch; rq_advance := adv |}
+                  rq_search := option_map bool_of srch; rq_advance := adv; rq_preload := bool_of pre |}
       | _, _, _ => None
       end
   | _ => None
@@ -826,13 +827,32 @@ Definition probes (r : rcfg) (ch : cache) (now : Z) (rq : request) : obs :=
     end
   else L [].
 
+(* resolver.cache.put((qname, rdtype, rdclass), Answer(qname, rdtype, rdclass, response)) by the user,
+   with the next scripted reply as response to the query (qname, rdtype, rdclass); nothing is stored
+   when the script has no reply message there or the Answer cannot be built *)
+Definition preload (sc : nat -> outcome) (r : rcfg) (rq : request) (ch : cache) (e : env) : final * cache * env :=
+  let e' := {| e_clock := e_clock e; e_pos := S (e_pos e); e_trace := e_trace e |} in
+  match o_reply (sc (e_pos e)) with
+  | PMsg p =>
+      let m := inst_msg {| q_name := rq_qname rq; q_class := rq_rdclass rq; q_type := rq_rdtype rq |} p in
+      match make_answer (rq_qname rq) (rq_rdtype rq) (rq_rdclass rq) m None (e_clock e) (Z.of_nat (e_pos e)) with
+      | Ok a =>
+          (FLibError 70,
+           (if r_cache r
+            then cache_put ch {| k_name := rq_qname rq; k_type := rq_rdtype rq; k_class := rq_rdclass rq |} a
+            else ch), e')
+      | _ => (FLibError 71, ch, e')
+      end
+  | PExn _ => (FLibError 71, ch, e')
+  end.
+
 Fixpoint run_requests (sc : nat -> outcome) (xf : nat) (r : rcfg) (rqs : list request) (ch : cache)
          (clock : Z) (pos : nat) : list obs * list obs :=
   match rqs with
   | [] => ([], [])
   | rq :: rest =>
       let e := {| e_clock := clock + rq_advance rq; e_pos := pos; e_trace := [] |} in
-      let '(f, ch', e') := resolve xf sc r rq ch e in
+      let '(f, ch', e') := if rq_preload rq then preload sc r rq ch e else resolve xf sc r rq ch e in
       let o := L [L (map obs_of_event (e_trace e')); obs_of_final f; I (e_clock e')] in
       let p := probes r ch' (e_clock e') rq in
       let '(os, ps) := run_requests sc xf r rest ch' (e_clock e') (e_pos e') in
